@@ -238,7 +238,7 @@ def classify_stdout(stdout, fmt, data):
 
 
 NAME_SHAPES = ["project%d.tjp", "my project %d v2.1.tjp", "projet_\u00e9t\u00e9_%d.tjp", "\u8ba1\u5212%d.tjp", "2025-plan-%d.tjp", "%d.tjp",
-               "Pl\u00e4ne & Co (%d).tjp"]
+               "Pl\u00e4ne & Co (%d).tjp", "plan%d.tjp.txt", "schedule-%d"]      # the last two: another extension, none at all
 
 
 def input_name(k):
